@@ -11,4 +11,8 @@ theorem C19_rows_processor_order :
     before fileDumperRowsSkeleton "close" "write_file_to_output" = true ∧
     noneAfter fileDumperRowsSkeleton "write_row" "finalize_file" = true := by decide
 
+/-- a row is written to the data file before it is handed on: what a later step does to the row object (rows travel by
+reference) can never reach the file -/
+theorem C03_row_written_before_handed_on : before fileDumperRowsSkeleton "write_row" "yield" = true := by decide
+
 end Df.Live
